@@ -42,7 +42,7 @@ package lang
 //@ spec func cmt(s string, k int) int
 //@ axiom cmtstep: forall s string, k int :: {cmt(s, k)} 0 <= k && k < len(s) ==> cmt(s, k) == (s[k] == '#' ? k : (s[k] == '\n' ? 0 - 1 : (k == 0 ? 0 - 1 : cmt(s, k-1))))
 
-//@ spec func lexOK(l *Lexer) bool = l != nil && 0 <= l.pos && l.pos <= len(l.src)
+//@ spec func lexOK(l *Lexer) bool = l != nil && 0 <= l.pos && l.pos <= len(l.src) && 0 <= l.tokenStart && l.tokenStart <= l.pos
 
 //@ func Lexer.skipWhitespace [C13]
 //@   requires lexOK(l)
@@ -191,7 +191,9 @@ package lang
 
 // DESIGN.md 3.4 rows 2-6 (row 1, unset operands, is decided by the caller before Compare is reached).
 //@ func Value.Compare [C05]
-//@   requires v != nil && b != nil
+//@   requires v != nil && b != nil && !$faulted
+//@   updates $faulted
+//@   ensures[C11] fault-latched: $faulted <==> err != nil
 //@   ensures[C05] both-null: v.Tag == ValueNil && b.Tag == ValueNil ==> err == nil && result0 == 0
 //@   ensures[C05] left-null-smaller: v.Tag == ValueNil && b.Tag != ValueNil ==> err == nil && result0 == 0 - 1
 //@   ensures[C05] right-null-smaller: v.Tag != ValueNil && b.Tag == ValueNil ==> err == nil && result0 == 1
@@ -287,12 +289,22 @@ package lang
 //@   modifies nothing
 
 // Rendering reads the value graph only; the ancestor path it extends lives in the spare capacity of rootValues.
+// stringer-generated table lookups
+//@ func ValueTag.String
+//@   trusted
+//@   pure
+//@ func TokenTag.String
+//@   trusted
+//@   pure
+
 //@ func Value.PrettyString [C17]
 //@   requires v != nil
 //@   modifies nothing
 //@ func Value.prettyStringInteral [C17]
 //@   requires v != nil
 //@   modifies spare(rootValues)
+//@   loop 2 invariant own-keys: fresh(keys) && (forall j int :: 0 <= j && j < len(keys) ==> has(*v.Obj, keys[j]))
+//@   loop 3 invariant keys-present: forall j int :: 0 <= j && j < len(keys) ==> has(*v.Obj, keys[j])
 
 // printf is specified step by step: every byte or piece appended to the builder is justified by the
 // directive under the cursor (site assertions), the single write happens only on success, and the
@@ -607,26 +619,8 @@ package lang
 
 // ---------------------------------------------------------------- drivers (C01, C02, C03, C11)
 
-// Parser entry points (verified in the parser section below): syntax errors only, well-formed trees.
-//@ func Parser.Parse [C01,C11]
-//@   requires p != nil && p.lexer != nil && lexOK(p.lexer)
-//@   updates nothing
-//@   ensures[C01] errkind: err == nil || isSyn(err)
-//@   ensures[C11] no-output: $out == old($out)
-
-//@ func Parser.ParseExpression [C01,C11]
-//@   requires p != nil && p.lexer != nil && lexOK(p.lexer)
-//@   updates nothing
-//@   ensures[C01] errkind: err == nil || isSyn(err)
-//@   ensures[C01] result-or-error: err == nil ==> result0 != nil
-//@   ensures[C11] no-output: $out == old($out)
-
 //@ func NewLexer
 //@   ensures lexok: result.pos == 0 && result.src == src
-//@ func NewParser
-//@   requires l != nil
-//@   ensures result.lexer == l
-
 //@ func Evaluator.readRules [C01,C02]
 //@   requires e != nil
 //@   modifies e.beginRules, e.beginFileRules, e.endRules, e.endFileRules, e.patternRules
@@ -692,3 +686,238 @@ package lang
 //@   loop 6 invariant ready: drvOK(&ev) && !$faulted
 //@   loop 7 invariant ready: drvOK(&ev) && !$faulted
 //@   ensures[C01] evaluator-returned: (err == nil || isRT(err) || isJsonErr(err)) ==> result0 != nil
+
+// ---------------------------------------------------------------- parser (C01, C06, C07, C11, C13)
+
+
+// The rule table (I1 of lemma L6): precedence ladder and parselets per token.  The ladder for the
+// operators the property names is the statement's (call/member/index > prefix ! - + > * / % > + - >
+// comparisons, ~, !~, is > && || > assignment); the remaining entries record the grammar as built.
+//@ spec func isLiteralTag(t TokenTag) bool = t == Str || t == Num || t == True || t == False || t == Null
+//@ spec func isCompareTag(t TokenTag) bool = t == LessThan || t == GreaterThan || t == EqualEqual || t == BangEqual || t == LessEqual || t == GreaterEqual || t == Tilde || t == BangTilde
+//@ spec func isCompoundTag(t TokenTag) bool = t == PlusEqual || t == MinusEqual || t == MultiplyEqual || t == DivideEqual
+//@ spec func inTable(t TokenTag) bool = isLiteralTag(t) || t == Dollar || t == Ident || t == LSquare || t == Dot || t == LParen || isCompareTag(t) || t == Equal || t == Plus || t == Minus || t == Multiply || t == Divide || isCompoundTag(t) || t == AmpAmp || t == PipePipe || t == Match || t == Bang || t == PlusPlus || t == MinusMinus || t == LCurly || t == Percent || t == Is
+//@ spec func specPrec(t TokenTag) Precedence = (t == LSquare || t == Dot) ? PrecCall : (t == LParen ? PrecGroup : (t == Bang ? PrecUnary : ((t == PlusPlus || t == MinusMinus) ? PrecPostfix : ((t == Multiply || t == Divide || t == Percent) ? PrecMultiplication : ((t == Plus || t == Minus) ? PrecAddition : ((isCompareTag(t) || t == Is) ? PrecComparison : ((t == AmpAmp || t == PipePipe) ? PrecLogical : ((t == Equal || isCompoundTag(t)) ? PrecAssign : PrecNone))))))))
+//@ spec func prefixOK(r parseRule, t TokenTag) bool = r.prefix == (isLiteralTag(t) ? fn("literal") : ((t == Dollar || t == Ident) ? fn("identifier") : (t == LSquare ? fn("array") : (t == LParen ? fn("group") : ((t == Plus || t == Minus || t == Bang || t == PlusPlus || t == MinusMinus) ? fn("unary") : (t == Divide ? fn("regex") : (t == Match ? fn("match") : (t == LCurly ? fn("object") : nil))))))))
+//@ spec func infixOK(r parseRule, t TokenTag) bool = r.infix == (t == LSquare ? fn("computedMember") : (t == Dot ? fn("member") : (t == LParen ? fn("call") : (t == Equal ? fn("assign") : (t == Is ? fn("is") : ((t == PlusPlus || t == MinusMinus) ? fn("postfix") : ((isCompareTag(t) || t == Plus || t == Minus || t == Multiply || t == Divide || t == Percent || isCompoundTag(t) || t == AmpAmp || t == PipePipe) ? fn("binary") : nil)))))))
+//@ spec func tableOK(m map[TokenTag]parseRule) bool = forall t TokenTag :: (inTable(t) ==> has(m, t) && m[t].prec == specPrec(t) && prefixOK(m[t], t) && infixOK(m[t], t)) && (!inTable(t) ==> !has(m, t))
+//@ spec func parserOK(p *Parser) bool = p != nil && p.lexer != nil && lexOK(p.lexer) && p.current != nil && p.rules != nil && tableOK(p.rules)
+//@ modset parserState = p.current, p.previous, p.didEndStatement, p.inLoop, p.inFunction, p.lexer.pos, p.lexer.tokenStart
+
+// Every parsing function: syntax errors only, a node on success, the loop/function context flags
+// restored, nothing but the parser's own cursor state (and fresh nodes) written, no output.
+//@ functype parseRule.prefix
+//@   requires parserOK(arg0) && has(arg0.rules, arg0.current.Tag) && arg0.rules[arg0.current.Tag].prefix == thisfn()
+//@   updates nothing
+//@   modifies arg0.current, arg0.previous, arg0.didEndStatement, arg0.inLoop, arg0.inFunction, arg0.lexer.pos, arg0.lexer.tokenStart
+//@   ensures[C01] errkind: result1 == nil || isSyn(result1)
+//@   ensures[C01] node: result1 == nil ==> result0 != nil
+//@   ensures[C07] context-restored: arg0.inLoop == old(arg0.inLoop) && arg0.inFunction == old(arg0.inFunction)
+//@   ensures ok: parserOK(arg0) && (result1 == nil ==> arg0.previous != nil)
+//@ functype parseRule.infix
+//@   requires parserOK(arg0) && arg1 != nil && has(arg0.rules, arg0.current.Tag) && arg0.rules[arg0.current.Tag].infix == thisfn()
+//@   updates nothing
+//@   modifies arg0.current, arg0.previous, arg0.didEndStatement, arg0.inLoop, arg0.inFunction, arg0.lexer.pos, arg0.lexer.tokenStart
+//@   ensures[C01] errkind: result1 == nil || isSyn(result1)
+//@   ensures[C01] node: result1 == nil ==> result0 != nil
+//@   ensures[C07] context-restored: arg0.inLoop == old(arg0.inLoop) && arg0.inFunction == old(arg0.inFunction)
+//@   ensures ok: parserOK(arg0) && (result1 == nil ==> arg0.previous != nil)
+
+//@ func Parser.error [C01,C12]
+//@   requires p != nil && p.lexer != nil && 0 <= pos
+//@   updates nothing
+//@   ensures[C12] position: pos < len(p.lexer.src) ==> lineAt(p.lexer.src, pos - result.Col, result.SrcLine, result.Line)
+//@   ensures[C12] position-past-end: pos >= len(p.lexer.src) ==> lineAt(p.lexer.src, len(p.lexer.src) - len(result.SrcLine), result.SrcLine, result.Line)
+//@   ensures[C12] message: result.Message == msg
+//@   modifies nothing
+
+//@ func Parser.advance [C01,C13]
+//@   requires p != nil && p.lexer != nil && lexOK(p.lexer)
+//@   updates nothing
+//@   modifies parserState
+//@   ensures[C01] errkind: err == nil || isSyn(err)
+//@   ensures[C13] newline-skipped: err == nil ==> p.current != nil && p.current.Tag != Newline
+//@   ensures previous: err == nil ==> p.previous == old(p.current)
+//@   ensures ok: p.lexer == old(p.lexer) && lexOK(p.lexer) && p.rules == old(p.rules) && (old(p.current) != nil ==> p.current != nil) && p.inLoop == old(p.inLoop) && p.inFunction == old(p.inFunction) && (old(p.previous) != nil && old(p.current) != nil ==> p.previous != nil)
+
+//@ func Parser.consume [C01]
+//@   requires parserOK(p)
+//@   updates nothing
+//@   modifies parserState
+//@   ensures[C01] errkind: result == nil || isSyn(result)
+//@   ensures previous: result == nil ==> p.previous != nil && p.previous == old(p.current) && (exists k int :: 0 <= k && k < len(tags) && tags[k] == p.previous.Tag)
+//@   ensures ok: parserOK(p) && p.inLoop == old(p.inLoop) && p.inFunction == old(p.inFunction) && (old(p.previous) != nil ==> p.previous != nil)
+//@   loop 0 invariant ok: parserOK(p) && (match ==> (exists k int :: 0 <= k && k < len(tags) && tags[k] == p.current.Tag))
+//@   loop 1 invariant ok: parserOK(p)
+
+//@ func Parser.atStatementEnd [C13]
+//@   requires parserOK(p)
+//@   updates nothing
+//@   modifies parserState
+//@   ensures ok: parserOK(p) && p.inLoop == old(p.inLoop) && p.inFunction == old(p.inFunction) && (old(p.previous) != nil ==> p.previous != nil)
+
+//@ func Parser.block [C01,C07]
+//@   requires parserOK(p)
+//@   ensures previous: err == nil ==> p.previous != nil
+//@   updates nothing
+//@   modifies parserState
+//@   ensures[C01] errkind: err == nil || isSyn(err)
+//@   ensures[C07] context-restored: p.inLoop == old(p.inLoop) && p.inFunction == old(p.inFunction)
+//@   ensures ok: parserOK(p)
+//@   loop 0 invariant ok: parserOK(p) && p.inLoop == old(p.inLoop) && p.inFunction == old(p.inFunction) && p.previous != nil
+
+//@ func Parser.statement [C01,C07,C11]
+//@   requires parserOK(p) && p.previous != nil
+//@   updates nothing
+//@   modifies parserState
+//@   ensures[C01] errkind: err == nil || isSyn(err)
+//@   ensures[C01] node: err == nil ==> result0 != nil
+//@   ensures[C07] context-restored: p.inLoop == old(p.inLoop) && p.inFunction == old(p.inFunction)
+//@   ensures[C11] break-needs-loop: err == nil && (istype(result0, *StatementBreak) || istype(result0, *StatementContinue)) ==> old(p.inLoop)
+//@   ensures[C11] return-needs-function: err == nil && istype(result0, *StatementReturn) ==> old(p.inFunction)
+//@   assert[C11] loop-header-outside-loop-context: p.inLoop == old(p.inLoop) && p.inFunction == old(p.inFunction) @ Parser.expression
+//@   ensures ok: parserOK(p) && (err == nil ==> p.previous != nil)
+
+//@ func Parser.loopBody [C01,C07,C11]
+//@   requires parserOK(p) && p.previous != nil
+//@   updates nothing
+//@   modifies parserState
+//@   ensures[C01] errkind: err == nil || isSyn(err)
+//@   ensures[C01] node: err == nil ==> result0 != nil
+//@   ensures[C07] context-restored: p.inLoop == old(p.inLoop) && p.inFunction == old(p.inFunction)
+//@   assert[C07] body-in-loop-context: p.inLoop @ Parser.statement
+//@   ensures ok: parserOK(p) && (err == nil ==> p.previous != nil)
+
+//@ func Parser.printStatement [C01,C13]
+//@   requires parserOK(p)
+//@   updates nothing
+//@   modifies parserState
+//@   ensures[C01] errkind: err == nil || isSyn(err)
+//@   ensures[C07] context-restored: p.inLoop == old(p.inLoop) && p.inFunction == old(p.inFunction)
+//@   ensures ok: parserOK(p) && (err == nil ==> p.previous != nil)
+//@   loop 0 invariant ok: parserOK(p) && p.inLoop == old(p.inLoop) && p.inFunction == old(p.inFunction) && p.previous != nil
+
+//@ func Parser.expression [C01]
+//@   requires parserOK(p)
+//@   updates nothing
+//@   modifies parserState
+//@   ensures[C01] errkind: err == nil || isSyn(err)
+//@   ensures[C01] node: err == nil ==> result0 != nil
+//@   ensures[C07] context-restored: p.inLoop == old(p.inLoop) && p.inFunction == old(p.inFunction)
+//@   ensures ok: parserOK(p) && (err == nil ==> p.previous != nil)
+
+// Precedence of the token under the cursor, as recorded in the rule table.
+//@ spec func precAt(p *Parser) Precedence = has(p.rules, p.current.Tag) ? p.rules[p.current.Tag].prec : PrecNone
+
+//@ func Parser.expressionWithPrec [C01,C06]
+//@   requires parserOK(p)
+//@   updates nothing
+//@   modifies parserState
+//@   ensures[C01] errkind: err == nil || isSyn(err)
+//@   ensures[C01] node: err == nil ==> result0 != nil
+//@   ensures[C06] stops-at-looser-operator: err == nil ==> precAt(p) < prec
+//@   ensures[C07] context-restored: p.inLoop == old(p.inLoop) && p.inFunction == old(p.inFunction)
+//@   ensures ok: parserOK(p) && (err == nil ==> p.previous != nil)
+//@   loop 0 invariant ok: parserOK(p) && p.inLoop == old(p.inLoop) && p.inFunction == old(p.inFunction) && lhs != nil && p.previous != nil
+
+//@ func Parser.evalExprList [C01]
+//@   requires parserOK(p)
+//@   updates nothing
+//@   modifies parserState
+//@   ensures[C01] errkind: err == nil || isSyn(err)
+//@   ensures[C07] context-restored: p.inLoop == old(p.inLoop) && p.inFunction == old(p.inFunction)
+//@   ensures ok: parserOK(p) && (err == nil ==> p.previous != nil)
+//@   loop 0 invariant ok: parserOK(p) && p.inLoop == old(p.inLoop) && p.inFunction == old(p.inFunction)
+
+//@ func Parser.rewriteCompundAssingment [C01,C09]
+//@   requires p != nil && left != nil && right != nil && (opToken.Tag == PlusEqual || opToken.Tag == MinusEqual || opToken.Tag == MultiplyEqual || opToken.Tag == DivideEqual)
+//@   updates nothing
+//@   modifies nothing
+//@   ensures[C01] node: err == nil && result0 != nil
+
+//@ func Parser.parseRule [C01,C02,C11]
+//@   requires parserOK(p) && !p.inLoop && !p.inFunction
+//@   updates nothing
+//@   modifies parserState
+//@   ensures[C01] errkind: err == nil || isSyn(err)
+//@   ensures[C07] context-restored: p.inLoop == old(p.inLoop) && p.inFunction == old(p.inFunction)
+//@   ensures ok: parserOK(p)
+
+//@ func Parser.parseFunction [C01,C07,C11]
+//@   requires parserOK(p)
+//@   updates nothing
+//@   modifies parserState
+//@   ensures[C01] errkind: err == nil || isSyn(err)
+//@   ensures[C07] context-restored: p.inLoop == old(p.inLoop) && p.inFunction == old(p.inFunction)
+//@   assert[C07] body-in-function-context: p.inFunction @ Parser.block
+//@   ensures ok: parserOK(p)
+//@   loop 0 invariant ok: parserOK(p) && p.inLoop == old(p.inLoop) && p.inFunction
+
+//@ func Parser.ParseExpression [C01,C11]
+//@   requires p != nil && p.lexer != nil && lexOK(p.lexer) && p.rules != nil && tableOK(p.rules)
+//@   updates nothing
+//@   modifies parserState
+//@   ensures[C01] errkind: err == nil || isSyn(err)
+//@   ensures[C01] node: err == nil ==> result0 != nil
+
+//@ func Parser.Parse [C01,C11]
+//@   requires p != nil && p.lexer != nil && lexOK(p.lexer) && p.rules != nil && tableOK(p.rules) && !p.inLoop && !p.inFunction
+//@   updates nothing
+//@   modifies parserState
+//@   ensures[C01] errkind: err == nil || isSyn(err)
+//@   loop 0 invariant ok: parserOK(p) && !p.inLoop && !p.inFunction
+
+//@ func NewParser [C06]
+//@   requires l != nil
+//@   updates nothing
+//@   modifies nothing
+//@   ensures ready: result.lexer == l && result.rules != nil && result.current == nil && !result.inLoop && !result.inFunction
+//@   ensures[C06] table-is-the-ladder: tableOK(result.rules)
+
+//@ func literal [C01,C06]
+//@   implements parseRule.prefix
+
+//@ func regex [C01,C06]
+//@   implements parseRule.prefix
+
+//@ func identifier [C01,C06]
+//@   implements parseRule.prefix
+
+//@ func array [C01,C06]
+//@   implements parseRule.prefix
+
+//@ func object [C01,C06]
+//@   implements parseRule.prefix
+//@   loop 0 invariant ok: parserOK(p) && p.inLoop == old(p.inLoop) && p.inFunction == old(p.inFunction)
+
+//@ func match [C01,C06]
+//@   implements parseRule.prefix
+//@   loop 0 invariant ok: parserOK(p) && p.inLoop == old(p.inLoop) && p.inFunction == old(p.inFunction) && p.previous != nil
+//@   loop 1 invariant ok: parserOK(p) && p.inLoop == old(p.inLoop) && p.inFunction == old(p.inFunction) && p.previous != nil
+
+//@ func group [C01,C06]
+//@   implements parseRule.prefix
+
+//@ func unary [C01,C06]
+//@   implements parseRule.prefix
+
+//@ func computedMember [C01,C06]
+//@   implements parseRule.infix
+
+//@ func member [C01,C06]
+//@   implements parseRule.infix
+
+//@ func call [C01,C06]
+//@   implements parseRule.infix
+
+//@ func postfix [C01,C06]
+//@   implements parseRule.infix
+
+//@ func binary [C01,C06]
+//@   implements parseRule.infix
+
+//@ func is [C01,C06]
+//@   implements parseRule.infix
+
+//@ func assign [C01,C06]
+//@   implements parseRule.infix
